@@ -8,11 +8,13 @@ VERIF = os.path.dirname(os.path.dirname(os.path.abspath(__file__)))
 CHECKS = {
     "C01": ("convergence-rate monitor against closed-form solutions on the same Brownian path",
             "measured strong-order slopes and final errors of real sdeint runs for every solver x noise cell against "
-            "exact solutions evaluated on the very path the solver consumed; adaptive error monotone in tolerance",
+            "exact solutions evaluated on the very path the solver consumed (also with off-grid intermediate outputs "
+            "requested); adaptive error shrinks with the tolerances through sdeint and the sdeint_adjoint forward pass",
             "closed forms in vt/closed_forms.py; PyTorch; fixed entropies; slopes over 5-6 dyadic step sizes"),
     "C02": ("one-step residual monitor against independently built stochastic Taylor expansions",
             "real solver.step driven by a stub Brownian motion with prescribed increments; residual slopes in h against "
-            "Ito/Stratonovich-Taylor references built from dense autograd Jacobians; exact equality for Euler/Milstein",
+            "Ito/Stratonovich-Taylor references built from dense autograd Jacobians; exact equality for Euler/Milstein; "
+            "the measured step is the first or the second step of the solver object",
             "torch.autograd.functional jacobians; Gauss-Hermite quadrature; exploration over generated SDEs, no proof"),
     "C03": ("history + reference-model monitor (Chen relations) on real Brownian objects",
             "additivity, Chen's relation for U and A (against the captured tree pieces), zero-length and antisymmetry "
@@ -25,62 +27,75 @@ CHECKS = {
             "torch.randn i.i.d.; single-node Levy areas"),
     "C05": ("shadow-dictionary bit-identity monitor at the API boundary",
             "every repeated (interval, flags) query compared with torch.equal across evictions, refinements and "
-            "recomputation; backward-pass queries of sdeint_adjoint matched to forward ones",
+            "recomputation, with the process default dtype flipped in between; backward-pass queries of sdeint_adjoint "
+            "matched to forward ones, a second backward pass bit-identical; caller-owned tensors unmodified",
             "identical float end points"),
     "C06": ("twin-object differential monitor",
             "same-seed/same-history twins and, in dyadic mode, twins with different histories probed on the same "
-            "intervals must agree bit for bit; different entropies must differ",
-            "probes on the tolerance grid"),
+            "intervals (on and off the tolerance grid, after near-duplicate queries) must agree bit for bit, one twin "
+            "under default dtype float32; different entropies must differ",
+            "dyadic mode for the history-independence clause"),
     "C07": ("invariant hooks: stack-depth probe, per-call operation budget, cache bound, exception monitor under stress",
             "tens of thousands of solver-shaped queries, all cache sizes, slivers, sub-tolerance queries and sdeint "
             "with its default Brownian motion, with depth/ops/cache monitors armed",
             "logical-step bound stands in for non-termination; depth compared at n and 8n"),
     "C08": ("finite-difference oracle on real backprop with frozen (injected) adaptive schedules",
             "directional central differences of a random functional of all outputs vs autograd for every solver x noise "
-            "cell; adaptive runs replay the recorded accept/reject schedule; error control observed under no_grad",
-            "float64 central differences eps=1e-6"),
+            "cell, incl. the logqp output and solves resumed from a returned extra solver state; adaptive runs replay the "
+            "recorded accept/reject schedule; error control observed under no_grad",
+            "float64 central differences, self-validated at eps = 1e-5, 1e-6, 1e-7"),
     "C09": ("differential monitor sdeint vs sdeint_adjoint + gradient-convergence monitor",
-            "forward outputs bit-equal to sdeint; adjoint gradients converge to closed-form / fine-grid backprop "
-            "gradients with measured slopes; only requested tensors receive gradients",
+            "forward outputs bit-equal to sdeint (fixed and adaptive steps, list times, adjoint_adaptive requested); adjoint "
+            "gradients converge to closed-form / fine-grid backprop gradients with measured slopes (also with logqp and "
+            "with adjoint_adaptive); only requested tensors receive gradients (subsets, frozen, empty, renamed)",
             "closed-form gradients; dt/16 backprop reference"),
     "C10": ("differential monitor adjoint_reversible_heun vs backprop, classified by observed step grids",
             "gradients compared to 1e-9 relative on exact grids (class A), 1e-6 on decimal grids (class B); sliver "
-            "mismatches (class C) are violations",
+            "mismatches (class C) are violations; time axes up to |t|/dt = 6.7e7, renamed methods, resumed solves",
             "float64; Brownian increments over 1-ulp shifted intervals differ by sqrt(ulp) on decimal grids"),
     "C11": ("independent dense-Jacobian reference model for the adjoint vector fields",
             "AdjointSDE.f / g_prod / f_and_g_prod / g_prod_and_gdg_prod compared with a dense augmented-system "
             "construction for all 2x4 type combinations; graph/no-graph discipline observed",
             "torch.autograd.functional.jacobian"),
     "C12": ("step-log monitor against a reference model of the dt grid and linear interpolation",
-            "every step logged via SolverProbe; grid, interpolation and output-time invariance asserted",
+            "every step logged via SolverProbe; grid, interpolation and output-time invariance asserted for sdeint and "
+            "the sdeint_adjoint forward pass; list/tuple/tensor times, default dtype float32, mixed precision, "
+            "non-contiguous initial states, inputs unmodified",
             "grid model in ts dtype"),
     "C13": ("checkpoint-restart differential monitor",
-            "one-shot vs chunked integration at every cut position / random multi-cuts, torch.equal on state and extra",
+            "one-shot vs chunked integration at every cut position / random multi-cuts on the nominal dt grid, torch.equal "
+            "on state and extra; sdeint and sdeint_adjoint forward pass; float32 Brownian motion with float64 state",
             "same-entropy Brownian objects"),
     "C14": ("event-trace monitor of the adaptive controller with natural and injected error schedules",
             "trials parsed from Brownian queries and controller calls; tiling, dt_min, accept/reject rule, error norm "
-            "recomputation, termination bound; adversarial error sequences injected at compute_error",
+            "recomputation, termination bound; adversarial error sequences injected at compute_error; sdeint, the forward "
+            "pass of sdeint_adjoint and every reverse-time solve of an adjoint_adaptive backward pass; mixed time/state "
+            "dtypes, tensor dt/dt_min",
             "dt >= dt_min; logical trial bound"),
     "C15": ("algebraic round-trip monitor for reversible Heun",
-            "step-level inverse identity and trajectory-level reconstruction through ReverseBrownian",
+            "step-level inverse identity and trajectory-level reconstruction through ReverseBrownian (grid and off-grid "
+            "outputs, list times under default float32, reverse leg through sdeint or sdeint_adjoint, far time axes)",
             "stable range n*dt; decimal-grid sqrt(ulp) effect"),
     "C16": ("interface-variant differential monitor + dense reference for derived operators",
-            "seven interface variants x all cells: bit-identical or explicit error; prod / g dg v / Levy-Jacobian terms "
-            "vs dense-Jacobian definitions",
+            "ten interface variants (incl. renamed methods competing with decoys under the standard names) x all cells: "
+            "bit-identical or explicit error; prod / g dg v / Levy-Jacobian terms vs dense-Jacobian definitions",
             "torch.equal across variants"),
     "C17": ("differential monitor special noise type vs general embedding",
             "diagonal/scalar/additive SDEs vs the same SDE declared general, same Brownian path, all common solvers",
             "1e-12 relative"),
     "C18": ("logqp monitor: shape/sign/additivity, undisturbed state, exact and hand-augmented references",
-            "logqp output vs closed form 1/2|c|^2 dt and vs a hand-augmented SDE integrated by the same solver",
+            "logqp output vs closed form 1/2|c|^2 dt and vs a hand-augmented SDE integrated by the same solver; two "
+            "output times, batch 1, off-grid outputs, renamed prior drift, signed / batch-varying diffusion",
             "lstsq pseudo-inverse reference"),
     "C19": ("exhaustive enumeration of the configuration product with call-count monitors",
             "every sde_type x noise_type x method x levy x adaptive x logqp combination against a table written from the "
-            "documentation; rejected ones must raise ValueError with zero Brownian queries and zero solver steps",
+            "documentation; rejected ones must raise ValueError with zero Brownian queries and zero solver steps; 35 "
+            "malformed-argument classes built on a base call that is checked to be accepted",
             "oracle table from DOCUMENTATION.md"),
     "C20": ("row-perturbation / permutation differential monitor",
-            "perturbing other rows leaves row i bit-identical; permuting rows permutes outputs; Brownian rows "
-            "element-wise independent (shares monitor C of C04)",
+            "perturbing other rows leaves row i bit-identical (also rows of magnitude 1e-4..1e12, with logqp, through the "
+            "adjoint forward pass); permuting rows permutes outputs; Brownian elements driven by their own noise "
+            "element, no duplicated elements in a sample",
             "element-wise SDEs bit-exact; reductions 1e-13"),
 }
 
